@@ -194,16 +194,33 @@ impl<'a, T: ColumnProvider> ExpressionExecutionEngine<'a, T> {
                 }
             }
             ExpressionTree::In { is_not, operand, values } => {
+                // x IN (v1, v2) is x = v1 OR x = v2 and x NOT IN (v1, v2) is x != v1 AND x != v2,
+                // where a comparison with NULL is false
                 let executed_operand = self.evaluate(operand)?;
+                let mut any_null = executed_operand.is_null();
 
                 for value in values {
                     let expected_value = self.evaluate(value)?;
-                    if executed_operand == expected_value {
-                        return Ok(Value::Bool(!is_not));
+                    if expected_value.is_null() {
+                        any_null = true;
+                    } else if !executed_operand.is_null() {
+                        let is_equal = self.evaluate(&ExpressionTree::Compare {
+                            operator: CompareOperator::Equal,
+                            left: Box::new(ExpressionTree::Value(executed_operand.clone())),
+                            right: Box::new(ExpressionTree::Value(expected_value))
+                        })?;
+
+                        if is_equal.bool() {
+                            return Ok(Value::Bool(!is_not));
+                        }
                     }
                 }
 
-                Ok(Value::Bool(*is_not))
+                if any_null {
+                    Ok(Value::Bool(false))
+                } else {
+                    Ok(Value::Bool(*is_not))
+                }
             }
             ExpressionTree::FunctionCall { function, arguments } => {
                 let mut executed_arguments = Vec::new();
